@@ -1,0 +1,14 @@
+//go:build verif
+
+package ledgerstore
+
+import "github.com/uptrace/bun"
+
+// NewStoreOverDB builds a Store for ledger `name` in bucket `bucket` over an
+// existing *bun.DB (the verification harness passes a recording fake database).
+func NewStoreOverDB(db *bun.DB, bucket, name string) *Store {
+	return &Store{
+		bucket: &Bucket{name: bucket, db: db},
+		name:   name,
+	}
+}
